@@ -164,7 +164,7 @@ func (m *monitor) runFileCase(fc fileCase) (judged int, nontrivial bool) {
 	}
 	defer func() {
 		if p := recover(); p != nil {
-			m.r.Violation(vrun.Sig{"ep": "IFileHash", "effect": "panic", "pre": "any", "backend": fc.Backend}, fmt.Sprintf("%s: file hashing panicked: %v", a.Name, p), witness())
+			m.r.Violation(vrun.Sig{"ep": "FileHash", "effect": "panic", "pre": "any", "backend": fc.Backend}, fmt.Sprintf("%s: file hashing panicked: %v", a.Name, p), witness())
 		}
 	}()
 	// judge one successful digest of the file at path
@@ -187,8 +187,8 @@ func (m *monitor) runFileCase(fc fileCase) (judged int, nontrivial bool) {
 			nontrivial = true
 		}
 		if got != want[path] {
-			m.r.Violation(vrun.Sig{"ep": ep, "pre": pre, "cause": cause, "effect": "wrong digest", "backend": fc.Backend},
-				fmt.Sprintf("%s %s(%s file of %d bytes) = %s, reference of its bytes %s [%s]", a.Name, ep, fc.Backend, len(bytesAt[path]), got, want[path], pre), witness())
+			m.r.Violation(vrun.Sig{"ep": "FileHash", "pre": pre, "effect": "wrong digest", "backend": fc.Backend},
+				fmt.Sprintf("%s %s(%s file of %d bytes) = %s, reference of its bytes %s [%s (%s)]", a.Name, ep, fc.Backend, len(bytesAt[path]), got, want[path], pre, cause), witness())
 		}
 	}
 	bg := context.Background()
